@@ -193,7 +193,7 @@ func cmdWorker(args []string) {
 			for _, x := range t.Vals {
 				d = tape.Mix(d, x)
 			}
-			if v != nil {
+			if v != nil && !st.VerdictOrderDependent {
 				d = tape.Mix(d, tape.HashString(v.Class+"|"+v.Sig))
 			}
 			for k := range st.Logs {
